@@ -114,20 +114,26 @@ def judge_loss(case, obs):
     if not losses:
         present_at_end = True
 
+    def wants(ci):
+        # the caller's own exceptions= argument, else the driver's exceptions_on_send attribute
+        return case["callers"][ci].get("exceptions", exceptions)
+
     def allow_comm_error(ci, rec):
         # run_sequence() always propagates; send() only when the caller asked for exceptions
-        if case["callers"][ci]["kind"] == "send" and not exceptions:
+        if case["callers"][ci]["kind"] == "send" and not wants(ci):
+            return False
+        if case["callers"][ci]["kind"] == "txn" and not wants(ci):
             return False
         return bool(losses) and rec.get("t_done", 1e9) >= min(losses) - 1e-9
 
     judge_results(case, obs, drv, allow_comm_error, out)
     # ---- a send in flight when the gateway is lost FAILS when the caller asked for exceptions (it is not quietly
     #      repeated on the next connection): single-command callers whose frame was on its way and unanswered
-    if exceptions and len(losses) >= 1 and case.get("how") in ("error", "eof") and drv == "tridonic":
+    if len(losses) >= 1 and case.get("how") in ("error", "eof") and drv == "tridonic":
         t_loss = 1000.0 + losses[0]
         for ci, (cspec, rec) in enumerate(zip(case["callers"], obs["callers"])):
             real = [c for c in cspec["cmds"] if c["k"] not in ("sleep", "progress", "power")]
-            if cspec["kind"] not in ("send", "txn") or len(real) != 1 or rec["status"] != "ok":
+            if cspec["kind"] not in ("send", "txn") or len(real) != 1 or rec["status"] != "ok" or not wants(ci):
                 continue
             key = sc.frame_key(sc.build_cmd(real[0]))
             written = [w["t"] for w in obs["wire"] if w["kind"] == "send" and (w["bits"], w["value"]) == key]
@@ -397,6 +403,8 @@ def loss_case(draw, driver=None):
         callers.append({"kind": kind, "cmds": cmds, "t0": draw(st.sampled_from([0.0, 0.0, 0.01, 0.03, 0.06, 0.5, 1.2, 2.5]))})
         if kind == "seq" and draw(st.booleans()):
             cmds.insert(draw(st.integers(0, len(cmds))), {"k": "sleep", "d": draw(st.sampled_from([0.02, 0.3]))})
+        if kind in ("send", "txn") and draw(st.integers(0, 2)) == 0:
+            callers[-1]["exceptions"] = draw(st.booleans())      # said at the call (exceptions=...), overriding the driver's default
         # (hasseb reports carry no identity: an abandoned QUERY's answer cannot be told from the next query's - documented)
         if draw(st.integers(0, 3)) == 0 and not (drv == "hasseb" and any("oc" in c for c in cmds)):
             # the application gives up on this caller at some point (often while the device is away)
